@@ -188,7 +188,13 @@ pub fn run(ctx: &Ctx) {
         let ads = &ads;
         ctx.par_range("exhaustive-32-bit-u32-le-be", 2u64 << 32, move |i, l| {
             let a = &ads[4 + (i >> 32) as usize];
-            (a.check)((i & 0xFFFF_FFFF) as u128, 1, 2, l)
+            let before = l.nontrivial.len();
+            let r = (a.check)((i & 0xFFFF_FFFF) as u128, 1, 2, l);
+            if l.nontrivial.len() > before {
+                l.nontrivial.clear();
+                l.nontrivial_enum(1);
+            }
+            r
         });
         ctx.exhausted("all 2^32 values of u32 through both adapters");
     }
